@@ -764,7 +764,9 @@ fn pid(l: &Lint, doc: &Document, loose: bool) -> String {
     let src = doc.get_source();
     let s = l.span.start.min(src.len());
     let e = l.span.end.min(src.len());
-    let flagged: String = src[s..e].iter().collect();
+    // the flagged text as the tokens under the lint spell it (markup between them - `teh_ *teh` - is no part of it)
+    let flagged: String = doc.get_tokens().iter().filter(|t| t.span.start < e && s < t.span.end)
+        .map(|t| src[t.span.start.min(src.len())..t.span.end.min(src.len())].iter().collect::<String>()).collect::<Vec<_>>().join("\u{1}");
     let tok_texts = |a: usize, b: usize| -> Vec<String> {
         if a >= b { return vec![]; }
         // (a zero-width structural token strictly inside the window is one of "the tokens within two characters":
